@@ -145,6 +145,15 @@ def gfortran_sample(ctx, rendered, every=10):
         ctx.event("gfortran-12-quirk:entity-with-two-local-names-reported-untyped(program-kept)")
         return
     if err:
+        try:  # keep the rejected program for diagnosis (harness error, exit 2)
+            import hashlib, json as _json
+
+            d = os.path.join(os.environ.get("VERIF_OUT", "/dev/shm"), "rejected")
+            os.makedirs(d, exist_ok=True)
+            with open(os.path.join(d, hashlib.sha1(repr(sorted(rendered.files.items())).encode()).hexdigest()[:12] + ".json"), "w") as fh:
+                _json.dump({"error": err[:3000], "files": rendered.files}, fh)
+        except OSError:
+            pass
         raise HarnessError("generator produced a program gfortran rejects:\n" + err[:1500] + "\n" +
                            "\n".join(f"-- {k}\n{v}" for k, v in rendered.files.items())[:6000])
 
@@ -161,8 +170,16 @@ def gfortran_two_names_quirk(rendered, err):
     errs = re.findall(r"^(?:Fatal )?Error: (.*)$", err, re.M)
     if not errs:
         return False
+    quirk = re.compile(r"(?:Symbol|Function|Derived type) .(\w+). at \(1\) (?:has no IMPLICIT type|has not been previously defined|is being used before it is defined)")
+    # 'use b, only: rho => t' + 'use a' + 'type, extends(t) :: u': "Symbol 't' has not been previously defined", after
+    # which gfortran no longer knows where it is (Expecting END MODULE, statements "in CONTAINS section", ...)
+    first = quirk.match(errs[0])
+    if not (first and first.group(1).lower() in names):
+        return False
+    if "has not been previously defined" in errs[0] or "is being used before it is defined" in errs[0]:
+        return True  # everything after a failed type definition / declaration is a consequence
     for e in errs:
-        m = re.match(r"Symbol .(\w+). at \(1\) has no IMPLICIT type", e)
+        m = quirk.match(e)
         if m and m.group(1).lower() in names:
             continue
         if e.startswith("Cannot open module file"):
